@@ -38,7 +38,9 @@ RULE = ("one case = (problem class, data fixture, construction mode [direct | fa
         "non-default crossover answers, DenseWeightedGenomicEstimatedBreedingValueMatrix.from_algmod; every factory additionally "
         "on SHARED input objects (bvmat with location!=0, scale!=1, unscale True/False): inputs untouched after construction and "
         "after evaluation, a second build (same encoding, then another encoding) equals the isolated build, the first problem's "
-        "data and answers unchanged afterwards; distinct by digest of "
+        "data and answers unchanged afterwards; chunked data: OHV _calc_ohvmat for every chunk size mem in {None,1..nconfig+1,1024} "
+        "and the OHV factories of all encodings on populations of 45/46/47/65 taxa (990..2145 crosses, every ohvmat row + decisions on "
+        "chunk-boundary and tail rows), numpy.empty NaN-poisoned during factory calls; distinct by digest of "
         "(class, fixture, mode, decision)")
 ASSUME = ["mc/compat.py restores removed numpy names only",
           "numpy.linalg.cholesky / float arithmetic are correct (the kinship factor handed to directly constructed problems is "
@@ -119,6 +121,11 @@ def shards(tier, seed):
     for n in (2, 3):
         for v in variants:
             out.append(("matrix", n, v))
+    for n in LARGE_N:
+        out.append(("large", n))
+    for n in ns:
+        for v in variants:
+            out.append(("chunks", n, v))
     for f in FM.FAMILIES:
         for n in ns:
             for v in variants:
@@ -605,7 +612,8 @@ def run_factory(ctx, fname, n, variant, enc, focus=None):
                 common = dict(space_kwargs(enc, N0, k), **eval_kwargs(DEFAULT_CFG, fam_L(fam, fx, fac, opt), fx.wts)[0])
 
                 def go(k=k, common=common):
-                    prob, exps, d = fam.build_factory(cls, enc, fx, fac, opt, common)
+                    with poisoned_empty():
+                        prob, exps, d = fam.build_factory(cls, enc, fx, fac, opt, common)
                     if prob is None:
                         skip.append(exps)
                         return
@@ -993,6 +1001,157 @@ def run_matrix(ctx, n, variant, focus=None):
 
 
 # ----------------------------------------------------------------------------------------------------------
+# data that a factory builds in memory chunks (OHV: mem = 1024 rows per chunk): chunk arithmetic at small scale through
+# the documented `mem` parameter, and the factories themselves on populations with more than 1024 crosses
+LARGE_N = (45, 46, 47, 65)
+
+
+class poisoned_empty:
+    """While active, numpy.empty hands out NaN-filled float arrays: rows a library routine forgets to write are
+    deterministic (uninitialised memory is unspecified, so this changes no specified behaviour)."""
+    def __enter__(self):
+        self._orig = numpy.empty
+        orig = self._orig
+
+        def empty(*a, **k):
+            arr = orig(*a, **k)
+            if arr.dtype.kind == "f":
+                arr.fill(numpy.nan)
+            return arr
+        numpy.empty = empty
+        return self
+
+    def __exit__(self, *exc):
+        numpy.empty = self._orig
+        return False
+
+
+def run_chunks(ctx, n, variant, focus=None):
+    """OptimalHaploidValue*._calc_ohvmat(ploidy, haplomat, xmap, mem) for every chunk size mem in {None, 1..nconfig+1, 1024}:
+    every row = ploidy * sum over blocks of the best block value among the cross' parents and phases."""
+    fam = FM.BY_NAME["OHV"]
+    for lay, nb in (("2x2", 2), ("1x4", 4)):
+        fx = Fx(n, variant, ctx.seed, layout=lay)
+        hv = R.block_values(fx.phased, fx.u, fx.blocks(nb))
+        hm = A([[[[float(v) for v in b] for b in i] for i in ph] for ph in hv])
+        for enc in FM.ENCS:
+            cn = fam.classes[enc]
+            cls = FM.load(fam.module, cn)
+            for npar, uniq in ((2, True), (2, False), (3, False)):
+                rows = R.cross_map(n, npar, uniq)
+                exp = [[float(v) for v in R.ohv_of_cross(hv, r)] for r in rows]
+                flat = [v for r in exp for v in r]
+                for mem in [None] + list(range(1, len(rows) + 2)) + [1024]:
+                    case = dict(spec=["chunks", n, variant], stage="chunks", cls=cn, layout=lay, nhaploblk=nb, nparent=npar, unique=uniq, mem=mem,
+                                fixture=fx.key())
+                    if focus and (focus.get("cls") not in (None, cn) or focus.get("mem", mem) != mem):
+                        continue
+                    ctx.evaluations += 1
+                    ctx.transitions += 1
+                    ctx.count("layer:chunks")
+                    ctx.count("cls:" + cn)
+                    if mem is not None and mem < len(rows) and len(rows) % mem:
+                        ctx.flag("chunks:partial-last-chunk")
+
+                    def go():
+                        with poisoned_empty():
+                            got = cls._calc_ohvmat(ploidy=2, haplomat=hm.copy(), xmap=A(rows, "int64"), mem=mem)
+                        g = numpy.asarray(got, dtype=float)
+                        require(g.shape == (len(rows), FX.T) and near(g.ravel().tolist(), flat), "OptimalHaploidValueSelectionProblemMixin._calc_ohvmat:rows",
+                                lambda: f"mem={mem}, {len(rows)} crosses: ohvmat = {g.tolist()}, definition = {exp}", case)
+                    if ctx.guard(go, case=case, sig_prefix="OptimalHaploidValueSelectionProblemMixin._calc_ohvmat:"):
+                        ctx.traces += 1
+                    ctx.state(digest(("chunks", cn, fx.key(), nb, npar, uniq, mem)))
+
+
+def big_population(n, seed):
+    """n taxa x 4 markers, deterministic non-periodic genotypes; same marker layout / model as the small fixtures."""
+    from pybrops.popgen.gmat.DensePhasedGenotypeMatrix import DensePhasedGenotypeMatrix
+    fx = Fx(3, 0, seed)
+    phased = [[[1 if ((i * 7 + l * 3 + ph * 5 + (i * i) // 3 + (i // 5) * l) % 5) < 2 else 0 for l in range(FX.M)] for i in range(n)]
+              for ph in range(2)]
+    pg = DensePhasedGenotypeMatrix(mat=A(phased, "int8"), taxa=numpy.array([f"L{(i * 37) % n:03d}" for i in range(n)], dtype=object),
+                                   taxa_grp=A([i % 7 for i in range(n)], "int64"), **fx._vrnt())
+    pg.group_vrnt()
+    return fx, phased, pg
+
+
+def run_large(ctx, n, focus=None):
+    """OHV factories on a population with ~1000-2000 crosses (around and beyond the 1024-row chunk): EVERY row of ohvmat
+    against the definition, latentfn on decisions that touch the first rows, the rows around the chunk boundaries and
+    the last rows."""
+    fam = FM.BY_NAME["OHV"]
+    fx, phased, pg = big_population(n, ctx.seed)
+    hv = R.block_values(phased, fx.u, fx.blocks(2))
+    ctx.bounds.update({"large_population_taxa": list(LARGE_N)})
+    for uniq in (True, False):
+        want = R.cross_map(n, 2, uniq)
+        N0 = len(want)
+        for enc in FM.ENCS:
+            cn = fam.classes[enc]
+            if focus and focus.get("cls") not in (None, cn):
+                continue
+            cls = FM.load(fam.module, cn)
+            k = 3 if enc == "subset" else N0
+            case = dict(spec=["large", n], stage="large", cls=cn, enc=enc, unique=uniq, ncross=N0)
+            common = dict(space_kwargs(enc, N0, k), **eval_kwargs(DEFAULT_CFG, FX.T, fx.wts)[0])
+            built = []
+
+            def go():
+                with poisoned_empty():
+                    built.append(cls.from_pgmat_gpmod(nparent=2, nhaploblk=2, unique_parents=uniq, pgmat=pg, gpmod=fx.gpmod(), **common))
+            ctx.evaluations += 1
+            ctx.transitions += 1
+            ctx.count("layer:large")
+            ctx.count("cls:" + cn)
+            if N0 > 1024 and N0 % 1024:
+                ctx.flag("large:more-than-one-chunk-with-partial-tail")
+            if not ctx.guard(go, case=case, sig_prefix=f"{cn}.from_pgmat_gpmod:"):
+                continue
+            prob = built[0]
+
+            def data():
+                rows = _rows(prob)
+                P = f"{cn}.from_pgmat_gpmod:data:"
+                require(sorted(rows) == sorted(want), P + "decn_space_xmap", f"{len(rows)} cross-map rows, {N0} crosses exist", case)
+                exp = [[float(v) for v in R.ohv_of_cross(hv, r)] for r in rows]
+                got = numpy.asarray(prob.ohvmat, dtype=float)
+                require(got.shape == (N0, FX.T), P + "ohvmat", f"ohvmat shape {got.shape}", case)
+                bad = [i for i in range(N0) if not near(got[i].tolist(), exp[i])]
+                require(not bad, P + "ohvmat", lambda: f"{len(bad)} of {N0} rows differ from the definition, first row {bad[0]} (cross {rows[bad[0]]}): "
+                        f"{got[bad[0]].tolist()} vs {exp[bad[0]]}; last differing row {bad[-1]}", case)
+                return exp
+            res = []
+            if not ctx.guard(lambda: res.append(data()), case=case, sig_prefix=f"{cn}.from_pgmat_gpmod:"):
+                continue
+            ctx.traces += 1
+            exp = res[0]
+            d = {"values": exp, "N": N0}
+            hot = sorted({i for i in (0, 1, 1022, 1023, 1024, 1025, 2047, 2048, N0 - 3, N0 - 2, N0 - 1) if 0 <= i < N0})
+            if enc == "subset":
+                decs = [(a, b, c) for a in hot[-3:] for b in hot[:2] for c in hot[2:5] if len({a, b, c}) == 3] + [tuple(hot[-3:])]
+            else:
+                decs = []
+                for a, b in itertools.combinations(hot, 2):
+                    v = [0] * N0
+                    v[a], v[b] = (1, 1) if enc == "binary" else (2, 1)
+                    decs.append(tuple(FX.GRID[1] * t for t in v) if enc == "real" else tuple(v))
+            for x in decs:
+                c2 = dict(case, xnz=[[i, float(v)] for i, v in enumerate(x) if v] if enc != "subset" else list(x))
+                ctx.evaluations += 1
+                if ctx.guard(lambda: check_latent(ctx, fam, d, FX.T, cn, prob, enc, x, "", c2), case=c2, sig_prefix=cn + ".latentfn:"):
+                    ctx.traces += 1
+                ctx.count("layer:large-latent")
+            ctx.state(digest(("large", cn, n, uniq)))
+            ctx.outcome(digest(("large", n, uniq, exp[-1])))
+
+
+def _rows(prob):
+    return [tuple(int(v) for v in r) for r in numpy.asarray(prob.decn_space_xmap).tolist()]
+
+
+
+# ----------------------------------------------------------------------------------------------------------
 def run_discover(ctx):
     found, failed = discover()
     table = table_classes()
@@ -1028,6 +1187,10 @@ def run_shard(spec, ctx, focus=None):
         run_factory(ctx, *spec[1:], focus=focus)
     elif kind == "matrix":
         run_matrix(ctx, *spec[1:], focus=focus)
+    elif kind == "large":
+        run_large(ctx, *spec[1:], focus=focus)
+    elif kind == "chunks":
+        run_chunks(ctx, *spec[1:], focus=focus)
     else:
         raise KeyError(kind)
 
@@ -1040,7 +1203,7 @@ def finalize(ctx, tier, seed):
         assert c.get("cls:" + cn, 0) > 0, f"class never exercised: {cn}"
     for enc in FM.ENCS:
         assert c.get("enc:" + enc, 0) > 0, enc
-    for lay in ("definition", "agreement", "evalfn", "evaluate", "factory", "factory-latent", "history", "set-then-query", "matrix-factory", "factory-sharing"):
+    for lay in ("definition", "agreement", "evalfn", "evaluate", "factory", "factory-latent", "history", "set-then-query", "matrix-factory", "factory-sharing", "chunks", "large", "large-latent"):
         assert c.get("layer:" + lay, 0) > 0, lay
     for k in ("perm", "rescale", "encoding"):
         assert c.get("agree:" + k, 0) > 0, k
@@ -1059,6 +1222,8 @@ def finalize(ctx, tier, seed):
         for enc in fam.classes:
             for fac, _ in fam.factories(enc, tier):
                 assert c.get(f"factory:{fam.name}.{fac}", 0) > 0, (fam.name, fac)
+    for fl in ("chunks:partial-last-chunk", "large:more-than-one-chunk-with-partial-tail"):
+        assert fl in f, fl
     for fl in ("matrix:per-taxon-array-counts", "matrix:nrep-decreasing-along-taxa", "matrix:inbred-taxon"):
         assert fl in f, fl
     for m_ in ("DenseExpectedMaximumBreedingValueMatrix.from_gmod", "DenseWeightedGenomicEstimatedBreedingValueMatrix.from_algmod"):
@@ -1071,7 +1236,7 @@ def replay(case, ctx):
     spec = tuple(case["spec"])
     st = case.get("stage")
     focus = {"stage": {"latent": "latent", "agree": "agree", "eval": "eval", "construct": "latent", "history": "history"}.get(st, st)}
-    for k in ("enc", "enc2", "xs", "cfg", "k", "fi", "perm"):
+    for k in ("enc", "enc2", "xs", "cfg", "k", "fi", "perm", "cls", "mem"):
         if k in case:
             focus[k] = case[k]
     if "xs" not in focus and "x" in case:
